@@ -15,7 +15,8 @@ RULE = ("cases = (env, entry with short episodes, next_obs_in_extras flag, key, 
         "of the unwrapped step and reset; the whole run is repeated as one jitted lax.scan and slices of it under vmap; "
         "non-trivial = wrapper steps that cross an episode boundary, distinct by (env, entry, flag, key, boundary index)")
 ASSUMPTIONS = [
-    "the reference uses jax.random.split(terminal_state.key)[0] as the documented fresh key",
+    "'freshly derived key' = one of split(key)[0], split(key)[1], fold_in(key, 0|1); the derivation observed at the first "
+    "boundary must be used consistently afterwards",
     "float leaves are compared with rtol 1e-5 between scan/vmap and per-step execution, everything else bitwise",
 ]
 N_STEPS = 40
@@ -56,7 +57,16 @@ class Rig:
 
         self.w_scan = jax.jit(rollout)
         self.w_vstep = jax.jit(jax.vmap(self.W.step))
-        self.split0 = jax.jit(lambda k: jax.random.split(k)[0])
+        # "a key freshly derived from the terminal state's key": the property does not fix the derivation, so a
+        # small family of derivations is accepted; the first boundary decides which one the wrapper uses and every
+        # later boundary (of every case run with this rig) must be consistent with it
+        self.derivations = {
+            "split[0]": jax.jit(lambda k: jax.random.split(k)[0]),
+            "split[1]": jax.jit(lambda k: jax.random.split(k)[1]),
+            "fold_in(0)": jax.jit(lambda k: jax.random.fold_in(k, 0)),
+            "fold_in(1)": jax.jit(lambda k: jax.random.fold_in(k, 1)),
+        }
+        self.viable = list(self.derivations)
         keys = [envs.make_key((i, 77)) for i in range(6)]
         ds = {instance_digest(episodes.host(b.reset(k)[0])) for k in keys}
         self.is_random = len(ds) >= 2
@@ -109,8 +119,17 @@ def run_case(ctx, rig, key_words, plan=None, actions=None, fail=None):
                 fail("mid.timestep", "non-terminal step: wrapper timestep != env timestep (+next_obs)", f"step {i}: {d}")
         else:
             boundaries += 1
-            k = rig.split0(s1.key)
-            s0, ts0 = b.reset(k)
+            k = s0 = ts0 = None
+            for name in list(rig.viable):
+                k_c = rig.derivations[name](s1.key)
+                s0_c, ts0_c = b.reset(k_c)
+                if treecmp.diff(hws, episodes.host(s0_c)) is None:
+                    k, s0, ts0 = k_c, s0_c, ts0_c
+                    rig.viable = [name]          # the wrapper's derivation is now pinned
+                    break
+            if s0 is None:                        # no accepted derivation reproduces the state: report against the first
+                k = rig.derivations[rig.viable[0]](s1.key)
+                s0, ts0 = b.reset(k)
             want_ts = ts1.replace(observation=ts0.observation)
             if flag:
                 ex = dict(ts1.extras)
@@ -118,7 +137,8 @@ def run_case(ctx, rig, key_words, plan=None, actions=None, fail=None):
                 want_ts = want_ts.replace(extras=ex)
             d = treecmp.diff(hws, episodes.host(s0))
             if d:
-                fail("last.state", "terminal step: wrapper state != reset(split(terminal key)[0]) state", f"step {i}: {d}")
+                fail("last.state", "terminal step: wrapper state is not reset(k) for a key k freshly derived from the terminal key",
+                     f"step {i} (derivations tried: {rig.viable}): {d}")
             hwant = episodes.host(want_ts)
             d = treecmp.diff(hwts.observation, hwant.observation)
             if d:
